@@ -379,6 +379,23 @@ def unpivot_clauses(ctx):
                 rem = [v for n, v in comps if n in src][0]
                 ps, pr_ = sel.generators[0].ifs[0], rem.generators[0].ifs[0]
                 vs, vr = sel.generators[0].target.id, rem.generators[0].target.id
+
+                def beta(e_):
+                    # functools.partial(g, a..)(x) with g a one-expression function: g's body with the parameters replaced
+                    from rules import tables as _tables
+                    from sa.astcopy import clone as _cl
+                    if isinstance(e_, ast.Call) and len(e_.args) == 1 and isinstance(e_.func, ast.Call) and \
+                            u(e_.func.func) in ('partial', 'functools.partial'):
+                        lam_ = _tables.as_lambda(ctx, func.module.name, e_.func)
+                        if lam_ is not None:
+                            arg_ = e_.args[0]
+
+                            class S_(ast.NodeTransformer):
+                                def visit_Name(self, n_):
+                                    return _cl(arg_) if isinstance(n_.ctx, ast.Load) and n_.id == lam_[0] else n_
+                            return S_().visit(_cl(lam_[1]))
+                    return e_
+                ps, pr_ = beta(ps), beta(pr_)
                 if mode:
                     e1 = match_expr('__M(__R, True)(%s)' % vs, ps)
                     e2 = match_expr('__M(__R, False)(%s)' % vr, pr_)
@@ -387,6 +404,16 @@ def unpivot_clauses(ctx):
                     if ok:
                         mf = repo.func('dataflows.processors.unpivot:%s' % u(e1['__M']), None)
                         ok = mf is not None
+                    else:
+                        # the predicate already reduced to its test (helper inlined, partial applied): full match compared with
+                        # True for the unpivoted part and with False for the kept part, on the same compiled pattern
+                        for pt_ in ("(__R.fullmatch(%s['name']) is not None) is %s", "(__R.fullmatch(%s['name']) is not None) == %s",
+                                    "bool(__R.fullmatch(%s['name'])) is %s", "bool(__R.fullmatch(%s['name'])) == %s"):
+                            e1 = match_expr(pt_ % (vs, 'True'), ps)
+                            e2 = match_expr(pt_ % (vr, 'False'), pr_)
+                            if e1 is not None and e2 is not None and u(e1['__R']) == u(e2['__R']) and \
+                                    match_expr("re.compile(%s['name'])" % spec, e1['__R']) is not None:
+                                ok = True
                     what = ('match_fields(re, True) / match_fields(re, False)',
                             'the schema is not split into complementary unpivoted / kept parts by one predicate')
                 else:
@@ -405,7 +432,16 @@ def unpivot_clauses(ctx):
     if mf is not None:
         clo = returned_closure(ctx, mf)
         value = None
-        if clo is not None:
+        if clo is None:
+            # the predicate handed out as functools.partial(g, re, expected): g's body with those two parameters bound
+            from rules import tables as _tables
+            rets_ = [r_.value for r_ in own_nodes(mf.node) if isinstance(r_, ast.Return) and r_.value is not None]
+            lam_ = _tables.as_lambda(ctx, mf.module.name, rets_[0]) if len(rets_) == 1 else None
+            if lam_ is not None:
+                class _C:
+                    params = [lam_[0]]
+                clo, value = _C, lam_[1]
+        elif clo is not None:
             if isinstance(clo.node, ast.Lambda):
                 value = clo.node.body
             else:
